@@ -288,7 +288,7 @@ class BaseEvent(BaseModel, Generic[T_EventResultType]):
 
             # If we're inside a handler and this event isn't complete yet,
             # we need to process it immediately to avoid deadlock
-            from bubus.service import EventBus, holds_global_lock, inside_handler_context
+            from bubus.service import EventBus, holds_global_lock, inline_processing_turn, inside_handler_context
 
             if not self.event_completed_signal.is_set() and inside_handler_context.get() and holds_global_lock.get():
                 # We're inside a handler and hold the global lock
@@ -305,35 +305,38 @@ class BaseEvent(BaseModel, Generic[T_EventResultType]):
                         iterations += 1
                         processed_any = False
 
-                        # Only the awaited event and its descendants jump the queue,
-                        # every other queued event keeps its FIFO turn on its bus
-                        related_event_ids: set[str] = set()
-                        related_events: list[BaseEvent[Any]] = [self]
-                        while related_events:
-                            related_event = related_events.pop()
-                            if related_event.event_id not in related_event_ids:
-                                related_event_ids.add(related_event.event_id)
-                                related_events.extend(related_event.event_children)
+                        # Take our turn: sibling handlers of a parallel_handlers bus that each await a child
+                        # must not process those children at the same time
+                        async with inline_processing_turn():
+                            # Only the awaited event and its descendants jump the queue,
+                            # every other queued event keeps its FIFO turn on its bus
+                            related_event_ids: set[str] = set()
+                            related_events: list[BaseEvent[Any]] = [self]
+                            while related_events:
+                                related_event = related_events.pop()
+                                if related_event.event_id not in related_event_ids:
+                                    related_event_ids.add(related_event.event_id)
+                                    related_events.extend(related_event.event_children)
 
-                        # Process the first queued related event on each bus
-                        # Create a list copy to avoid "Set changed size during iteration" error
-                        for bus in list(EventBus.all_instances):
-                            if not bus or not bus.event_queue:
-                                continue
+                            # Process the first queued related event on each bus
+                            # Create a list copy to avoid "Set changed size during iteration" error
+                            for bus in list(EventBus.all_instances):
+                                if not bus or not bus.event_queue:
+                                    continue
 
-                            queued_events: Any = bus.event_queue._queue  # type: ignore[attr-defined]
-                            event = next((e for e in queued_events if e.event_id in related_event_ids), None)
-                            if event is None:
-                                continue
-                            queued_events.remove(event)
-                            try:
-                                await bus.process_event(event)
-                            finally:
-                                bus.event_queue.task_done()
-                            processed_any = True
-                            # Check if the event we're waiting for is now complete
-                            if self.event_completed_signal.is_set():
-                                break
+                                queued_events: Any = bus.event_queue._queue  # type: ignore[attr-defined]
+                                event = next((e for e in queued_events if e.event_id in related_event_ids), None)
+                                if event is None:
+                                    continue
+                                queued_events.remove(event)
+                                try:
+                                    await bus.process_event(event)
+                                finally:
+                                    bus.event_queue.task_done()
+                                processed_any = True
+                                # Check if the event we're waiting for is now complete
+                                if self.event_completed_signal.is_set():
+                                    break
 
                         # Break out of the loop if event completed after processing
                         if self.event_completed_signal.is_set():
